@@ -162,6 +162,30 @@ theorem validator_detects_trun_beyond_mdat (c : RepCtx) (e : SegExp) (o : SegObs
     cases hi : c.infoEncrypted <;> cases hk : c.ivKnown <;> simp_all
   simp [this]
 
+/-- the trun/mdat comparison is stated with the mdat's **own** header size – 8 bytes for the
+compact form, 16 for the 64-bit `largesize` form the server keeps when the stored file uses it
+(media_segment.py:290-293: `mdat.position + mdat.header_size`): for every header size `o.mdatHdr`
+the two errors are present exactly when the first sample is not the first payload byte /
+the last sample ends behind the box -/
+theorem trun_errors_iff (c : RepCtx) (o : SegObs) (hr : ParseReaches c o) :
+    (SegErr.trunFirst ∈ (parseData c o).1 ↔
+      o.baseDataOffset + o.dataOffset ≠ ((o.mdatPos + o.mdatHdr : Nat) : Int)) ∧
+    (SegErr.trunLast ∈ (parseData c o).1 ↔
+      ((o.mdatPos + o.mdatSize : Nat) : Int)
+        < o.baseDataOffset + o.dataOffset + (sumSizes o.samples : Int)) := by
+  obtain ⟨h1, h2, h3, h4⟩ := hr
+  unfold parseData
+  constructor
+  · by_cases hf : o.baseDataOffset + o.dataOffset = ((o.mdatPos + o.mdatHdr : Nat) : Int) <;>
+      cases hi : c.infoEncrypted <;> cases hk : c.ivKnown <;> cases hv : c.video <;>
+      cases ho : c.optEncrypted <;> cases ha : decide (1 < o.nAtoms) <;> cases he : o.emsgOk <;>
+      simp_all <;> split <;> simp_all
+  · by_cases hl : o.baseDataOffset + o.dataOffset + (sumSizes o.samples : Int)
+        ≤ ((o.mdatPos + o.mdatSize : Nat) : Int) <;>
+      cases hi : c.infoEncrypted <;> cases hk : c.ivKnown <;> cases hv : c.video <;>
+      cases ho : c.optEncrypted <;> cases ha : decide (1 < o.nAtoms) <;> cases he : o.emsgOk <;>
+      simp_all <;> (try split) <;> simp_all <;> omega
+
 /-- **wrong saio offset** in an encrypted Representation -/
 theorem validator_detects_saio_offset (c : RepCtx) (e : SegExp) (o : SegObs)
     (hr : Reaches c o) (henc : c.infoEncrypted = true)
@@ -950,6 +974,20 @@ example : validateSegment exCtx { (timeExp 10 (0, 960)) with expSeq := some 0 } 
 example : located (repPass exCtx none (fetchAll
     ((sliceG [960, 960, 960, 960] 3840 0 2).map (timeExp 10)) [exObs 1 480, exObs 2 960]))
     = [(0, SegErr.decodeTime)] := by decide
+
+/-- a fragment whose mdat has the 16-byte largesize header (moof 112 bytes, payload at 128): the
+server's data_offset 128 is accepted, 120 ("8 too small", pointing into the header) is reported,
+and the compact-header offset convention does not apply -/
+def exObs16 (dataOffset : Int) : SegObs :=
+  { (exObs 7 5760) with dataOffset := dataOffset, mdatHdr := 16, mdatSize := 56 }
+
+example : validateSegment exCtx (timeExp 10 (5760, 960)) (exObs16 128) = [] := by decide
+example : validateSegment exCtx (timeExp 10 (5760, 960)) (exObs16 120) = [SegErr.trunFirst] := by decide
+example : Sound exCtx 0 (exObs16 128) :=
+  { status := by decide, ctype := rfl, encVideo := by decide, encOther := by decide, iv := by decide,
+    atoms := by decide, moof := rfl, mdat := rfl, emsg := rfl, trunFirst := by decide,
+    trunLast := by decide, enc := by decide, moov := rfl, trex := by decide, pts := by decide, mediaTs := rfl,
+    dashTs := by decide }
 
 /-- an encrypted fragment whose saio offset is off by one -/
 example : validateSegment { exCtx with optEncrypted := true, infoEncrypted := true, ivKnown := true }
